@@ -3,7 +3,7 @@
    the statements are tied to the regenerated description of the source. *)
 From Coq Require Import List NArith Bool.
 From LBZ Require Import Gen.Consts SchedX.XState Gen.SchedXTab SchedX.XSet SchedX.XModel SchedX.XInvDefs
-  SchedX.XF4 SchedX.XC10.
+  SchedX.XF4 SchedX.XOracle SchedX.XSeq SchedX.XC10.
 Import ListNotations.
 Local Open Scope N_scope.
 
@@ -16,3 +16,19 @@ Theorem C09_safe_for_every_configuration :
   forall n small ultra st, reach gen_cfg (init_dec n small ultra) st ->
     x_bad_attach st = false /\ retr_inv st = true.
 Proof. exact C09_safe_gen. Qed.
+
+(* Process level: for one stream (one oracle O) two runs that differ in worker count,
+   slot numbers, the sizes in which the input arrives (in_granul, read fragmentation)
+   and the interleaving give the same result: if both terminate normally they have
+   handed the same buffers to the writer; if one terminates normally the other cannot
+   fail; in every case what one has written is a prefix of what the other has written
+   (finding F2: on failing input the length of that prefix depends on the schedule). *)
+Theorem C09_process :
+  forall (O : oracle) n1 tin1 tout1 u1 n2 tin2 tout2 u2 st1 st2 L R,
+    SeqDec O 0 0 L R ->
+    oreach O gen_cfg (init_state n1 tin1 tout1 u1) st1 ->
+    oreach O gen_cfg (init_state n2 tin2 tout2 u2) st2 ->
+    (completed st1 -> completed st2 -> x_written st1 = x_written st2) /\
+    (completed st1 -> x_failed st2 = None) /\
+    (exists l, x_written st1 = x_written st2 ++ l \/ x_written st2 = x_written st1 ++ l).
+Proof. exact C09_process_gen. Qed.
